@@ -1,4 +1,6 @@
 import FluentVerif.Proto.RoundTripHs
+import FluentVerif.Client.Helpers
+import FluentVerif.Props.C03
 /-! # C02 — encoded bytes conform to the Forward Protocol v1 wire format
 
 Judge: the specification parser `parse` and the grammar predicates of `Forward/Spec.lean`, which
@@ -72,5 +74,127 @@ theorem C02_pong (q : Pong) (h : q.WF) (hm : q.mtype = [0x50, 0x4f, 0x4e, 0x47])
 /-- EventTime on the wire: fixext8 (0xd7), type 0, then big-endian seconds and nanoseconds -/
 theorem C02_eventtime (t : Instant) :
     appendEventTime t = [0xd7, 0x00] ++ (be 4 (t.sec % 4294967296).toNat ++ be 4 (t.nsec % 4294967296)) := rfl
+
+/-! ### the `Send*` helpers: the mode each one names, stamped with the time of the call -/
+
+theorem stampChunk_WF {ack id o} (ho : optPtrWF o) (hid : lenOK id) : optPtrWF (stampChunk ack id o) := by
+  unfold stampChunk
+  cases ack with
+  | false => simpa using ho
+  | true =>
+    have hd : (o.getD {}).WF := by
+      cases o with
+      | none => exact ⟨by simp, by simp, by simp⟩
+      | some x => exact ho
+    simp only [ite_true, optPtrWF]
+    split
+    · exact ⟨hd.size, hid, hd.compressed⟩
+    · exact hd
+
+/-- the options a helper-built message ends up with: the constructor's, plus the drawn chunk id iff
+acks are required -/
+theorem stampChunk_fresh (ack : Bool) (id : Bytes) (o : Options) (h : o.chunk = []) :
+    stampChunk ack id (some o) = some { o with chunk := if ack then id else [] } := by
+  cases ack <;> simp [stampChunk, h]
+  cases o; simp_all
+
+/-- `SendMessage`: Message mode, integer time = the second of the call, the given record, and an
+option map holding exactly the chunk id when acks are required (nil otherwise) -/
+theorem C02_SendMessage (cd pl now ack id) (tag : Bytes) (kvs : GoKVs) (e : Bytes)
+    (htag : lenOK tag) (hts : inInt64 now.sec) (hrec : (GoVal.map kvs).WF) (hid : lenOK id)
+    (he : Helper.wire cd pl now ack id (.message tag (.map kvs)) = some e) :
+    parse e = some (Message.obj tag now.sec (.map kvs) (if ack then some { chunk := id } else none), []) ∧
+    isMessage (Message.obj tag now.sec (.map kvs) (if ack then some { chunk := id } else none)) = true := by
+  refine ⟨?_, isMessage_obj _ _ _ _⟩
+  have h := Message.marshal_parse htag hts hrec (stampChunk_WF (o := none) trivial hid) he []
+  cases ack <;> simpa [stampChunk] using h
+
+/-- `SendMessageExt`: the same with an EventTime holding the instant of the call -/
+theorem C02_SendMessageExt (cd pl now ack id) (tag : Bytes) (kvs : GoKVs) (e : Bytes)
+    (htag : lenOK tag) (hrec : (GoVal.map kvs).WF) (hid : lenOK id)
+    (he : Helper.wire cd pl now ack id (.messageExt tag (.map kvs)) = some e) :
+    parse e = some (MessageExt.obj tag now (.map kvs) (if ack then some { chunk := id } else none), []) ∧
+    isMessageExt (MessageExt.obj tag now (.map kvs) (if ack then some { chunk := id } else none)) = true := by
+  refine ⟨?_, isMessageExt_obj _ _ _ _⟩
+  have h := MessageExt.marshal_parse htag hrec (stampChunk_WF (o := none) trivial hid) he []
+  cases ack <;> simpa [stampChunk] using h
+
+/-- `SendForward`: Forward mode with exactly the given entries in order and `size` = their number -/
+theorem C02_SendForward (cd pl now ack id) (tag : Bytes) (es : List (Instant × GoVal)) (e : Bytes)
+    (htag : lenOK tag) (hn : es.length < 4294967296) (hes : entriesWF es) (hm : recordsAreMaps es) (hid : lenOK id)
+    (he : Helper.wire cd pl now ack id (.forward tag es) = some e) :
+    parse e = some (Forward.obj tag es (some { size := some es.length, chunk := if ack then id else [] }), []) ∧
+    isForward (Forward.obj tag es (some { size := some es.length, chunk := if ack then id else [] })) = true := by
+  refine ⟨?_, isForward_obj _ _ _ hm⟩
+  have hw : optPtrWF (some ({ size := some (es.length : Int) } : Options)) :=
+    ⟨by intro i hi; simp at hi; subst hi; simp [inInt64]; omega, by simp, by simp⟩
+  simp only [Helper.wire, stampChunk_fresh ack id { size := some (es.length : Int) } rfl] at he
+  have hw' : optPtrWF (some ({ size := some (es.length : Int), chunk := if ack then id else [] } : Options)) :=
+    ⟨hw.size, by cases ack <;> simp <;> exact hid, by simp⟩
+  simpa using Forward.marshal_parse htag hn hes hw' he []
+
+/-- `SendPacked`: PackedForward mode — the bin is the concatenation of exactly the given entries'
+encodings, the options are `size` (and the chunk id), and there is **no** `compressed` option -/
+theorem C02_SendPacked (cd pl now ack id) (tag : Bytes) (es : List (Instant × GoVal)) (e : Bytes)
+    (htag : lenOK tag) (hn : es.length < 4294967296) (hes : entriesWF es) (hid : lenOK id)
+    (he : Helper.wire cd pl now ack id (.packed tag es) = some e) :
+    ∃ stream, marshalPacked es = some stream ∧
+      parseSeq es.length stream = some (entriesObjs es, []) ∧
+      (lenOK stream →
+        parse e = some (Packed.obj tag stream (some { size := some es.length, chunk := if ack then id else [] }), [])) := by
+  simp only [Helper.wire, newPacked, Option.map_eq_some_iff] at he
+  obtain ⟨m, ⟨s, hs, rfl⟩, rfl⟩ := he
+  refine ⟨s, hs, by simpa using marshalEntries_parse es s hes hs [], fun hl => ?_⟩
+  simp only [stampChunk_fresh ack id { size := some (es.length : Int) } rfl]
+  have hw' : optPtrWF (some ({ size := some (es.length : Int), chunk := if ack then id else [] } : Options)) :=
+    ⟨by intro i hi; simp at hi; subst hi; simp [inInt64]; omega, by cases ack <;> simp <;> exact hid, by simp⟩
+  simpa using Packed.marshal_parse (tag := tag) (stream := s) htag hl hw' []
+
+/-- `SendCompressed`: CompressedPackedForward — the options say `compressed: gzip` (and `size`, and
+the chunk id), and the bin is one complete gzip member of exactly the packed entries -/
+theorem C02_SendCompressed (cd pl now ack id) (tag : Bytes) (es : List (Instant × GoVal)) (e : Bytes)
+    (htag : lenOK tag) (hn : es.length < 4294967296) (hes : entriesWF es) (hid : lenOK id)
+    (he : Helper.wire cd pl now ack id (.compressed tag es) = some e) :
+    ∃ plain z, marshalPacked es = some plain ∧
+      parseSeq es.length plain = some (entriesObjs es, []) ∧
+      cd.gunzipOne z = some (plain, []) ∧
+      (lenOK z →
+        parse e = some (Packed.obj tag z
+          (some { size := some es.length, chunk := if ack then id else [], compressed := vGzip }), [])) := by
+  simp only [Helper.wire, newCompressed, newCompressedFromBytes, Compressor.reset, Compressor.write,
+    Option.map_eq_some_iff, Option.bind_eq_some_iff] at he
+  obtain ⟨m, ⟨s, hs, m0, ⟨c, hc, rfl⟩, rfl⟩, rfl⟩ := he
+  simp only [Option.some.injEq] at hc; subst hc
+  refine ⟨s, cd.member s, hs, by simpa using marshalEntries_parse es s hes hs [], by simpa using cd.sound s [], fun hl => ?_⟩
+  simp only [Option.getD_some, List.nil_append]
+  rw [stampChunk_fresh ack id { size := some (es.length : Int), compressed := vGzip } rfl]
+  have hw' : optPtrWF (some ({ size := some (es.length : Int), chunk := if ack then id else [], compressed := vGzip } : Options)) :=
+    ⟨by intro i hi; simp at hi; subst hi; simp [inInt64]; omega, by cases ack <;> simp <;> exact hid, by simp [vGzip]⟩
+  simpa using Packed.marshal_parse (tag := tag) (stream := cd.member s) htag (by simpa using hl) hw' []
+
+/-- `SendPackedFromBytes`: the caller's bytes verbatim as the bin, no option but the chunk id -/
+theorem C02_SendPackedFromBytes (cd pl now ack id) (tag b : Bytes) (e : Bytes)
+    (htag : lenOK tag) (hb : lenOK b) (hid : lenOK id)
+    (he : Helper.wire cd pl now ack id (.packedBytes tag b) = some e) :
+    parse e = some (Packed.obj tag b (if ack then some { chunk := id } else none), []) := by
+  simp only [Helper.wire, Option.some.injEq] at he; subst he
+  have h := Packed.marshal_parse (tag := tag) (stream := b) htag hb (stampChunk_WF (ack := ack) (o := none) trivial hid) []
+  cases ack <;> simpa [stampChunk] using h
+
+/-- `SendCompressedFromBytes`: `compressed: gzip`, and the bin gunzips to exactly the caller's bytes -/
+theorem C02_SendCompressedFromBytes (cd pl now ack id) (tag b : Bytes) (e : Bytes)
+    (htag : lenOK tag) (hid : lenOK id)
+    (he : Helper.wire cd pl now ack id (.compressedBytes tag b) = some e) :
+    ∃ z, cd.gunzipOne z = some (b, []) ∧
+      (lenOK z → parse e = some (Packed.obj tag z (some { chunk := if ack then id else [], compressed := vGzip }), [])) := by
+  simp only [Helper.wire, newCompressedFromBytes, Compressor.reset, Compressor.write, Option.map_eq_some_iff] at he
+  obtain ⟨m, ⟨c, hc, rfl⟩, rfl⟩ := he
+  simp only [Option.some.injEq] at hc; subst hc
+  refine ⟨cd.member b, by simpa using cd.sound b [], fun hl => ?_⟩
+  simp only [List.nil_append]
+  rw [stampChunk_fresh ack id { compressed := vGzip } rfl]
+  have hw' : optPtrWF (some ({ chunk := if ack then id else [], compressed := vGzip } : Options)) :=
+    ⟨by simp, by cases ack <;> simp <;> exact hid, by simp [vGzip]⟩
+  simpa using Packed.marshal_parse (tag := tag) (stream := cd.member b) htag (by simpa using hl) hw' []
 
 end FV
